@@ -1,6 +1,7 @@
 package engine
 
 import (
+	"runtime"
 	"fmt"
 	"go/constant"
 	"go/token"
@@ -288,6 +289,11 @@ func (e *Engine) runFrame(fr *frame) {
 		r := recover()
 		if r == nil {
 			return
+		}
+		if re, isRT := r.(runtime.Error); isRT {
+			// a Go runtime error inside the interpreter itself: the engine does not model
+			// something on this path. Report it as unsupported (inconclusive), never as a finding.
+			panic(pathEnd{"unsupported", fmt.Sprintf("engine limitation in %s: %v", fr.fn, re)})
 		}
 		if _, ok := r.(targetPanic); !ok {
 			panic(r) // engine signal or engine bug: unwind without running target defers
